@@ -142,6 +142,12 @@ Definition c19_judge (c : c19_case) : nat :=
 Definition c19_judge_info (c : c19_case) : nat :=
   if in_domain c then 0 else if model_eq c then 0 else 2.
 
+(* both in one evaluation: codes 1-3 gate, 12 = outside the quantifier and different from the model *)
+Definition c19_judge_all (c : c19_case) : nat :=
+  if negb (goms_ok c) then 3
+  else if in_domain c then verdict (spec_ok c) (model_eq c)
+  else if model_eq c then 0 else 12.
+
 Definition c19_nontrivial (c : c19_case) : bool :=
   in_domain c &&
   (Nat.ltb 0 (height (cc_tree c)) && cc_emb c ||
